@@ -1597,6 +1597,11 @@ def merge_nested_comprehensions(source: str) -> str:
                     new_generators.append(comprehension)
                     continue
 
+                # The keys of a dict keep the order in which the set is iterated
+                if isinstance(comprehension.iter, ast.SetComp) and isinstance(node, ast.DictComp):
+                    new_generators.append(comprehension)
+                    continue
+
                 # The variables of the inner comprehension become variables of the outer one, and
                 # the inner target gets the name of the outer target: that must not change what
                 # any name refers to.
